@@ -144,5 +144,6 @@ Next ==
 Spec == Init /\ [][Next]_vars
 Report == (l = NRec + 1) =>
   JsonSerialize(IOEnv.OUT, [total |-> NRec, checked |-> nruns, counters |-> Cardinality(DOMAIN cnt), keys |-> ndelta,
+     wirehist |-> [g \in DOMAIN hist |-> Len(hist[g][CHOOSE w \in DOMAIN hist[g] : TRUE])],
      viol |-> IF FinalBad # "" THEN Append(viol, [line |-> l, run |-> "history", what |-> FinalBad, p |-> 0]) ELSE viol])
 =============================================================================
